@@ -375,6 +375,12 @@ Section Judge.
     | MVerify, FOk => m_ready m && m_auth m                 (* eligible only if ready and authorised *)
     | MNext, FProven => existsb is_submit (c_trace c) && isnone (m_pend m)
                                                              (* proven = submitted and the relay caught up *)
+    | MNext, FIdle =>                                        (* "once all of them are mined": going idle
+                                                                is right only while a header is missing *)
+        match m_h m, m_e m, m_L m with
+        | Some h, Some e, Some L => if in_domain EL e L then h <? last_req EL e L else true
+        | _, _, _ => true
+        end
     | _, _ => true
     end.
 
